@@ -390,6 +390,18 @@ func setFields(msg protoreflect.Message, items []starlark.Tuple) error {
 // setField validates a Starlark field value, converts it to canonical form,
 // and assigns to the field of msg.  If value is None, the field is unset.
 func setField(msg protoreflect.Message, fdesc protoreflect.FieldDescriptor, value starlark.Value) error {
+	if fdesc.IsExtension() {
+		// The protoreflect.Message.NewField method must be able
+		// to return a new instance of the field type. Without
+		// having the Go type information available for extensions,
+		// the implementation of NewField won't know what to do.
+		//
+		// Thus we must augment the FieldDescriptor to one that
+		// additional holds Go representation type information
+		// (based in this case on dynamicpb).
+		fdesc = dynamicpb.NewExtensionType(fdesc).TypeDescriptor()
+	}
+
 	// None unsets a field.
 	if value == starlark.None {
 		msg.Clear(fdesc)
@@ -472,18 +484,6 @@ func setField(msg protoreflect.Message, fdesc protoreflect.FieldDescriptor, valu
 	v, err := toProto(fdesc, value)
 	if err != nil {
 		return fmt.Errorf("in field %s: %v", fdesc.Name(), err)
-	}
-
-	if fdesc.IsExtension() {
-		// The protoreflect.Message.NewField method must be able
-		// to return a new instance of the field type. Without
-		// having the Go type information available for extensions,
-		// the implementation of NewField won't know what to do.
-		//
-		// Thus we must augment the FieldDescriptor to one that
-		// additional holds Go representation type information
-		// (based in this case on dynamicpb).
-		fdesc = dynamicpb.NewExtensionType(fdesc).TypeDescriptor()
 	}
 
 	msg.Set(fdesc, v)
